@@ -85,7 +85,9 @@ def corpus_files():
 def pick(files, n, salt=0, huge=False):
     """deterministic subset: gen_* samples always (the 80 KB single-function sample only when huge=True: xdis's
     instruction iterator is quadratic in code length), then library modules rotated by the seed"""
-    gen = [f for f in files if os.path.basename(f).startswith("gen_") and (huge or "huge" not in os.path.basename(f))]
+    # the huge sample costs about 40 minutes per version in xdis's iterator: one version per instruction format era
+    huge_ok = lambda f: huge and os.path.basename(os.path.dirname(f)) in ("2.7", "3.8", "3.12")
+    gen = [f for f in files if os.path.basename(f).startswith("gen_") and ("huge" not in os.path.basename(f) or huge_ok(f))]
     libs = [f for f in files if not os.path.basename(f).startswith("gen_")]
     if n >= len(libs):
         return gen + libs
@@ -116,7 +118,7 @@ def record_xdis(d, files, host, mode, tag, nproc=8):
         fl.write_text(json.dumps(ch))
         out = d / ("rec-%s-%d.ndjson" % (tag, i))
         outs.append(out)
-        jobs.append(lambda fl=fl, out=out: lib.run_py(host, lib.HARNESS / "rec_bytecode.py", [out, fl, mode], timeout=3000))
+        jobs.append(lambda fl=fl, out=out: lib.run_py(host, lib.HARNESS / "rec_bytecode.py", [out, fl, mode], timeout=7200))
     run_parallel(jobs)
     recs = []
     for o in outs:
